@@ -262,6 +262,15 @@ for _pid, (_t, _x) in ROUND5.items():
         _tech, _text, _ref = CLAIMS[_pid]
         CLAIMS[_pid] = (_tech + _t, _text + " " + _x, _ref)
 
+ROUND6 = {
+ "C06": ("; effect analysis of every loop and iterator chain over a randomly seeded HashMap/HashSet", "Round 6: no output and no choice depends on the iteration order of a randomly seeded hash container (R6.12, whole program)."),
+ "C08": ("", "Round 6: the candidate record layouts are walked in an order that does not change from run to run (R8.17 lift of C06 R6.12)."),
+}
+for _pid, (_t, _x) in ROUND6.items():
+    if _pid in CLAIMS:
+        _tech, _text, _ref = CLAIMS[_pid]
+        CLAIMS[_pid] = (_tech + _t, _text + " " + _x, _ref)
+
 NA_REASON = {}
 
 checks = []
